@@ -6,12 +6,15 @@ package reader
 
 import (
 	"bufio"
+	"bytes"
 	"encoding/binary"
 	"encoding/json"
 	"fmt"
+	"io/ioutil"
 	"math/rand"
 	"os"
 	"strconv"
+	"sync"
 	"testing"
 )
 
@@ -161,6 +164,65 @@ func TestVerifReaderCases(t *testing.T) {
 }
 
 // TestVerifReaderTrace: binding B. Random buffers and operation sequences, recorded.
+// TestVerifReaderParallel: readers are independent of each other - every worker of the collector has its own, all at the
+// same time.  8 goroutines, each with its own reader over its own buffer, every result checked against the buffer.
+func TestVerifReaderParallel(t *testing.T) {
+	out := os.Getenv("VERIF_OUT")
+	if out == "" || os.Getenv("VERIF_PARALLEL") == "" {
+		t.Skip("driver: VERIF_PARALLEL not set")
+	}
+	var wg sync.WaitGroup
+	bad := make(chan string, 64)
+	for g := 0; g < 8; g++ {
+		wg.Add(1)
+		go func(g int) {
+			defer wg.Done()
+			rng := rand.New(rand.NewSource(int64(1000 + g)))
+			for round := 0; round < 400; round++ {
+				buf := make([]byte, 64+rng.Intn(64))
+				for i := range buf {
+					buf[i] = byte(g*31 + i*7 + round)
+				}
+				r := NewReader(buf)
+				pos := 0
+				for r.Len() > 0 {
+					var got, want []byte
+					switch n := []int{1, 2, 4, 8, 3}[rng.Intn(5)]; {
+					case n > r.Len():
+						n = r.Len()
+						got, _ = r.Read(n)
+						want = buf[pos : pos+n]
+						pos += n
+					case n == 3:
+						got, _ = r.Read(3)
+						want = buf[pos : pos+3]
+						pos += 3
+					default:
+						res := vApply(r, "uint", n)
+						got, want = vBytes(res.Val), buf[pos:pos+n]
+						pos += n
+					}
+					if !bytes.Equal(got, want) || r.ReadCount() != pos || r.Len() != len(buf)-pos {
+						select {
+						case bad <- fmt.Sprintf("goroutine %d round %d position %d: read %v, the buffer holds %v; count %d len %d", g, round, pos, got, want, r.ReadCount(), r.Len()):
+						default:
+						}
+						return
+					}
+				}
+			}
+		}(g)
+	}
+	wg.Wait()
+	close(bad)
+	var msgs []string
+	for m := range bad {
+		msgs = append(msgs, m)
+	}
+	b, _ := json.Marshal(map[string]interface{}{"bad": msgs})
+	ioutil.WriteFile(out, b, 0644)
+}
+
 func TestVerifReaderTrace(t *testing.T) {
 	out := os.Getenv("VERIF_OUT")
 	if out == "" {
